@@ -408,8 +408,8 @@ def numpy_rule(A: Analysis, col: Collector, rule: str):
     # strided views) is not content
     layout_dep = []
     for c in A.calls(fn):
-        if isinstance(c.func, ast.Attribute) and c.func.attr in ("tobytes", "ravel", "flatten", "tostring"):
-            o = kwarg(c, "order") or (c.args[0] if c.args else None)
+        if isinstance(c.func, ast.Attribute) and c.func.attr in ("tobytes", "ravel", "flatten", "tostring", "reshape"):
+            o = kwarg(c, "order") or (c.args[0] if c.args and c.func.attr != "reshape" else None)
             if o is not None and not (isinstance(o, ast.Constant) and o.value == "C"):
                 layout_dep.append(c)
         if isinstance(c.func, ast.Name) and c.func.id in ("memoryview", "bytes") and c.args and norm(c.args[0]) == param:
